@@ -205,7 +205,7 @@ Lemma disconnect_latches : forall fuel d w bs w' r,
   op_disconnect fuel d w = (w', r) -> r <> OCancel -> r <> OFuel -> r <> OPanic -> w_live w' = false.
 Proof.
   intros fuel d w bs w' r L Hp H Hc Hf Hpn. unfold op_disconnect in H. rewrite L, Hp in H. cbn [negb] in H.
-  destruct (write_all fuel bs w) as [w1 r1]. destruct r1.
+  destruct (write_all fuel bs _) as [w1 r1]. destruct r1.
   - destruct (io_flush w1) as [w2 fr]. destruct fr; inversion H; subst; try reflexivity. contradiction.
   - inversion H; subst. reflexivity.
   - inversion H; subst. contradiction.
